@@ -47,7 +47,8 @@ Nondeterminism that the flat representation removes and how it is resolved:
   priorities, as for C04);
 * which child is `idleSynchronizingWorkersChildren[0]` in `task.schedule`: `handoffAdm` admits the
   descent through *any* child with parked workers below it (that heap's `Less` is not a strict
-  weak order, `C04.idleLess_not_strictWeak`, so nothing sharper holds for every layout).
+  weak order, `C04.idleLess_not_strictWeak`, so nothing sharper holds for every layout), and any
+  worker parked at the invocation reached (see `descendAny`).
 -/
 namespace BbRe.SchedTree
 open BbRe.Sched
@@ -276,8 +277,12 @@ def snapshot (opOf : Nat → Fair.Op) (ns : List Node) (q : ScqId) : Fair.Inv :=
   toInv opOf encW ns q (maxDepth ns q + 1) []
 
 /-- `for len(i.idleSynchronizingWorkers) == 0 { i = i.idleSynchronizingWorkersChildren[0] }` over every
-possible heap layout: the first parked worker of any invocation reached through children that have
-parked workers below them. -/
+possible heap layout and list order: the parked workers of any invocation reached through children that
+have parked workers below them.  (The order of `idleSynchronizingWorkers` is not determined by the
+segments either: when several Synchronize calls of one invocation are woken in one segment — timers due
+together, `AddDrain`/`TerminateWorkers` ranging over the `scq.workers` map — the order in which they
+dequeue themselves (swap-remove) is the Go scheduler's / the map's choice.  `i.idleSynchronizingWorkers[0]`
+on the real order is judged by `Model/Fair.lean` on snapshots.) -/
 def descendAny (ns : List Node) (q : ScqId) : Nat → List Nat → List WId
   | 0, _ => []
   | fuel + 1, p =>
@@ -285,7 +290,7 @@ def descendAny (ns : List Node) (q : ScqId) : Nat → List Nat → List WId
     | none => []
     | some n =>
       match n.parked with
-      | w :: _ => [w]
+      | w :: r => w :: r
       | [] => n.ikids.flatMap (fun k => descendAny ns q fuel (p ++ [k]))
 
 /-- invocations examined in round `r` of `task.schedule` (cf. `Fair.roundNodes`) -/
